@@ -188,6 +188,15 @@ def mkbytes(items):
     return symbytes.mkbytes(list(items))
 
 
+def cps(s):
+    """code points of a (symbolic) string"""
+    return symstr._cps_of(s)
+
+
+def mkstr(cps_):
+    return symstr.mkstr(list(cps_))
+
+
 def is_symbolic(x):
     return isinstance(x, (SymInt, SymBool, symbytes.SymBytes, symbytes.SymByteArray,
                           symfloat.SymFloat, symstr.SymStr))
